@@ -256,6 +256,26 @@ func runC11(t *testing.T, tape *sim.Tape, tier string) *Outcome {
 		}
 		o.stat("pipelines_with_simple_string_arguments", 1)
 	}
+	// one pipeline in eight wraps every request in an outer array (the server executes an array found in first
+	// position), with or without a further outer element behind it
+	if !bigMode && tape.Draw(8, "nestedframing") == 7 {
+		for _, r := range protoReqs {
+			tail := [][]byte{nil, []byte("+tail\r\n"), []byte("$4\r\ntail\r\n"), []byte(":7\r\n+x\r\n")}[tape.Draw(4, "nestedtail")]
+			n := 1
+			switch {
+			case len(tail) == 0:
+			case tail[0] == ':':
+				n = 3
+			default:
+				n = 2
+			}
+			b := []byte(fmt.Sprintf("*%d\r\n", n))
+			b = append(b, r.Bytes...)
+			b = append(b, tail...)
+			r.Bytes = b
+		}
+		o.stat("pipelines_in_nested_framing", 1)
+	}
 	// one pipeline in eight sends its requests in the inline framing ("SET k v\r\n"): a server need not support it
 	// (then the fault-free run does not answer and the pipeline is skipped), but if it does, a cut line is a cut request
 	inline := false
